@@ -207,6 +207,21 @@ theorem loader_classification :
     LoadErr.handledRetry .unicodeDecode = false := by
   decide
 
+/-- the two exceptions the MO loader raises (C09) are the two `Model/Pipeline.moLoad` maps them to, and every flavour of "the
+    file cannot be read" that `open()` reports (an `OSError` subclass carrying an errno) is `os-error` — on the first call and on
+    the retry; polib's own `OSError('Syntax error in po file …')` (no errno) is `syntax-error-in-po-file` -/
+theorem loader_classes :
+    (∀ en tx, loadErrOf ⟨cls "lib.moparser.SyntaxError", en, tx⟩ = .moSyntax ∧ loadErrOfRetry ⟨cls "lib.moparser.SyntaxError", en, tx⟩ = .moSyntax) ∧
+    (∀ en tx, loadErrOf ⟨cls "builtins.UnicodeDecodeError", en, tx⟩ = .unicodeDecode) ∧
+    (["builtins.OSError", "builtins.PermissionError", "builtins.FileNotFoundError", "builtins.IsADirectoryError", "builtins.NotADirectoryError"].all fun n =>
+      [true, false].all fun tx => loadErrOf ⟨cls n, true, tx⟩ == .osErrno && loadErrOfRetry ⟨cls n, true, tx⟩ == .osErrno) = true ∧
+    loadErrOf ⟨cls "builtins.OSError", false, true⟩ = .poSyntax ∧ loadErrOf ⟨cls "builtins.OSError", false, false⟩ = .osOther ∧
+    -- a bare UnicodeError (what idna/punycode raise for malformed input) is NOT handled: lib/encodings.decode has to convert it (ded8ac2)
+    loadErrOf ⟨cls "builtins.UnicodeError", false, false⟩ = .other := by
+  refine ⟨?_, ?_, by decide, by decide, by decide, by decide⟩
+  · intro en tx; cases en <;> cases tx <;> decide
+  · intro en tx; cases en <;> cases tx <;> decide
+
 /-! ## 2. `check_string` over the tables -/
 
 theorem warnLoop_total (t : TrySite) (ws : List Cls) (h : ∀ w ∈ ws, (dispatch t.handlers w).isSome = true) :
